@@ -6,6 +6,7 @@ package ref
 import (
 	"fmt"
 	"math"
+	"math/big"
 	"sort"
 	"strconv"
 	"strings"
@@ -752,6 +753,14 @@ func arith(op string, a, b Val, ignoreDiv0 bool) Val {
 			}
 			return ai % bi
 		case "**", "^":
+			if bi >= 2 && bi <= 64 && (ai > 1 || ai < -1) {
+				// integer power: exact whenever the result is an integer of the language
+				z := new(big.Int).Exp(big.NewInt(ai), big.NewInt(bi), nil)
+				if z.IsInt64() {
+					return z.Int64()
+				}
+				decline("pow beyond the integer range")
+			}
 			f := math.Pow(float64(ai), float64(bi))
 			if math.IsNaN(f) || math.IsInf(f, 0) || math.Abs(f) >= 1<<53 {
 				decline("pow out of exact range")
